@@ -548,14 +548,28 @@ def make_handler(w: World, hi: int, hspec: dict):
         w.children.setdefault(ev.tag, []).append(tag)
         return True
 
-    async def do_await(me, tag):
+    async def do_await(me, tag, via_accessor=False):
         child = w.events[tag]
         st = w.running.get(tuple(me))
-        w.rec('aw-begin', by=list(me), ev=tag, already=w.is_complete(child))
+        w.rec('aw-begin', by=list(me), ev=tag, already=w.is_complete(child), acc=via_accessor)
         if st is not None:
             st['awaiting'] = tag
         try:
-            got = await child
+            if via_accessor:
+                # the documented one-liner `await bus.dispatch(Child()).event_result()`: the handler waits for the child through a
+                # result accessor instead of awaiting the event itself
+                try:
+                    # (an accessor does not process the child inline: without any timeout the handler would wait for ever for a bus that
+                    # cannot move on - outside every property here -, so a child without event_timeout is waited for with an explicit one)
+                    finite = child.event_timeout is not None and child.event_timeout != float('inf')
+                    await child.event_result(timeout=None if finite else 0.3125, raise_if_any=False, raise_if_none=False)
+                except asyncio.CancelledError:
+                    raise
+                except Exception as ex:  # noqa
+                    w.rec('aw-acc-exc', by=list(me), ev=tag, exc=type(ex).__name__)
+                got = child
+            else:
+                got = await child
         finally:
             if st is not None:
                 st['awaiting'] = None
@@ -585,8 +599,8 @@ def make_handler(w: World, hi: int, hspec: dict):
                 elif k == 'disp':
                     tag = do_dispatch(ev, me, op, pend)
                     if tag is not None:
-                        if op[3] == 'await':
-                            await do_await(me, tag)
+                        if op[3] in ('await', 'awaitacc'):
+                            await do_await(me, tag, op[3] == 'awaitacc')
                         elif op[3] == 'later':
                             pend.append(tag)
                 elif k == 'awaitall':
